@@ -2,7 +2,7 @@ import DiscretModel.Model.Proto
 import DiscretModel.Model.RoomBuild
 /-
 Model driver for engine `room` (local path). Same op lines as `harness/room` (see its `world.rs`):
-  case id=<n> keys=<K> dmax=<D>
+  case id=<n> keys=<K> dmax=<D> [uids=desc]
   mut s=<site> d=<date> r=<room> [new=1] [adm=<ulist>] [grp=<g>,<g>] [g<g>.u=<ulist>] [g<g>.ua=<ulist>] [g<g>.r=<rlist>]
   obs s=<site> r=<room>
   restart s=<site>
@@ -131,7 +131,9 @@ def stepLine (w : World) (line : String) : World × String :=
     match nat? rest "id", nat? rest "keys", nat? rest "dmax" with
     | some i, some k, some d =>
       if k ≤ 12 ∧ d ≤ 64 then
-        ({ World.blank with active := true, keys := k, dmax := d, df := w.df }, s!"case {i}")
+        let rev := kv? rest "uids" = some "desc"
+        ({ World.blank with active := true, keys := k, dmax := d,
+                            df := { w.df with uidOrderReversed := rev } }, s!"case {i}")
       else ({ World.blank with df := w.df }, "bad-op")
     | _, _, _ => ({ World.blank with df := w.df }, "bad-op")
   | kind :: rest =>
